@@ -14,7 +14,7 @@ def codec_nontrivial(tok, res):
 def codec_class(r):
     w = r.split(" ")
     if r.startswith("B"):            # rt: outcome + eq flag
-        return "rt:" + (w[2].split(":")[0] + ":" + w[2].split(":")[1] if w[2].startswith("err") else "msg") + ":" + w[-1]
+        return "rt:" + (w[2].split(":")[0] + ":" + w[2].split(":")[1] if w[2].startswith("err") else "msg") + ":" + w[5] + (":obj" if len(w) > 6 and w[6] != "O-" else "")
     if w[0].startswith("msg:"):
         return "msg"
     return " ".join(w[:1] if w[0][:3] in ("err", "nil", "ok") else w)[:24]
@@ -31,15 +31,22 @@ PROP = {
             "Frp.C17.decode_truncated",
             "Frp.C17.registry_size", "Frp.C17.registry_bytes_nodup", "Frp.C17.registry_structs_nodup",
             "Frp.C17.registry_bijection", "Frp.C17.schema_wellformed", "Frp.C17.schema_eq_golden",
-            "Frp.C17.holdsOn_sound", "Frp.C17.model_null_witness", "Frp.C17.modelHoldsFull_false",
-            "Frp.C17.model_holdsOn_partial",
+            "Frp.C17.holdsOn_sound", "Frp.C17.modelHoldsFull", "Frp.C17.readMsg_never_nil", "Frp.C17.null_is_error",
+            "Frp.C17.modelObs_eq_golib",
+            # JSON object level (Model/MsgObj driven by the regenerated table)
+            "Frp.C17.schema_kinds_known", "Frp.C17.schema_depth_ok", "Frp.C17.schema_names_nodup",
+            "Frp.C17.fromObj_toObj", "Frp.C17.fromObj_toObj_exact",
+            # the decoder before the fix 5c99d8a (documentation of finding C17-null-body)
+            "Frp.C17.model_null_witness", "Frp.C17.golibHoldsFull_false", "Frp.C17.golib_holdsOn_partial",
         ],
         "engines": [
             {"name": "codec", "quick_n": 20000, "thorough_n": 80000, "thorough_seeds": 5, "search_n": 6000, "search_seeds": 3,
              "nontrivial": codec_nontrivial, "result_class": codec_class},
         ],
         "rule": "codec engine: rt = generated values of all 18 message types through real WriteMsg->ReadMsg "
-                "(frame bytes vs model encode of the real JSON body, DeepEqual after the stated normalisation); "
+                "(frame bytes vs model encode of the real JSON body, DeepEqual after the stated normalisation; object level: "
+                "the real JSON body parsed into a canonical tree must equal the model's toObj of the Go value, and the Go "
+                "value that comes back must equal the model's norm2 of it); "
                 "rd/into = structured, mutated and random byte strings into real ReadMsg/ReadMsgInto through a "
                 "counting reader (error class, bytes consumed, body allocation); gold = 18 pinned frames of the released "
                 "protocol read and re-written by the real code; later = framing errors sent by a logged-in second client "
@@ -48,7 +55,9 @@ PROP = {
                 "plain empty-object frame; distinct = distinct (op line, result) pairs",
         "trusted": COMMON_TRUST + [
             "encoding/json (which bodies parse into which struct, how values print) is trusted: the JSON verdict "
-            "of each run is taken from the implementation as an oracle bit; only the literal `null` is modelled",
+            "of each run is taken from the implementation as an oracle bit; only the literal `null` is modelled. "
+            "The object level (which members with which values; Frp/Model/MsgObj.lean) IS modelled and tied; JSON text "
+            "syntax (escaping, number text, member order) and net.IP text form stay trusted",
             "model Frp/Model/Frame.lean written by hand from golib@v0.5.1 msg/json {process,pack,msg}.go; tied by the codec engine",
             "translator /verif/translate (go/ast) for Frp/Gen/MsgSchema.lean; golden table Frp/Props/C17Golden.lean pinned by hand",
         ],
@@ -79,10 +88,11 @@ META = {
                 "struct, and the whole table (type bytes, JSON names, Go types, omitempty) equals the golden table of "
                 "the released protocol. The model is tied to the code by thousands of generated values/byte strings per "
                 "run with the Lean predicate evaluated on the implementation's own results.",
-        "note": "Known finding reproduced on the real code: a frame whose JSON body is the literal null makes ReadMsg "
-                "return (nil, nil) - neither a message nor an error (witness theorem model_null_witness; the full "
-                "statement is proved false, the partial one excludes exactly that body). Trusted: encoding/json; the "
-                "hand-written framing model; the translator. Not covered: JSON value-level round trip as a theorem "
-                "(sampled by the rt ops only); first messages of type Login/NewWorkConn/NewVisitorConn on the live "
-                "server (session model, C04/C12).",
+        "note": "Finding C17-null-body (fixed by 5c99d8a): a frame whose JSON body is the literal null made ReadMsg "
+                "return (nil, nil) - neither a message nor an error; pkg/msg/ctl.go now turns that into an error. The model "
+                "is of the repaired ReadMsg and the full statement is proved for it (modelHoldsFull); the witness against "
+                "the vendored golib decoder alone stays as model_null_witness / golibHoldsFull_false. ReadMsgInto accepts "
+                "a null body as it accepts {} (encoding/json leaves the caller's struct untouched). Trusted: encoding/json; "
+                "the hand-written framing and object models; the translator. Not covered: first messages of type "
+                "Login/NewWorkConn/NewVisitorConn on the live server (session model, C04/C12).",
     }
